@@ -1,7 +1,7 @@
 """C03 - component listings mirror exactly the components of agents in the model."""
 from hypothesis import strategies as st
 
-from ECAgent.Core import Agent, Model
+from ECAgent.Core import Agent, Component, Model
 from ECAgent.Environments import DiscreteWorld, GridWorld, LineWorld, SpaceWorld, PositionComponent
 from vf.engine import Violation, InvalidCase
 from vf.fixtures import CompA, CompB, CompC, CompF, check, sized_lists, wone_of
@@ -9,7 +9,7 @@ from vf.fixtures import CompA, CompB, CompC, CompF, check, sized_lists, wone_of
 PROPERTY = "C03"
 BUDGET = {"quick": 1600, "thorough": 5000}
 RULE = ("2-3 models alive at once, each with its own environment kind (plain, SpaceWorld, DiscreteWorld, LineWorld, GridWorld), "
-        "a pool of 5 agents per model (incl. agents with no components) and 4 identity-equality component types (one with falsy instances, one deriving from PositionComponent). Histories "
+        "a pool of 5 agents per model (incl. agents with no components) and 5 identity-equality component types (one with falsy instances, one deriving from PositionComponent, one declared with metaclass=ABCMeta). Histories "
         "(1-45 ops) of attach/detach in ANY residency state (before joining, while resident - with or without the explicit "
         "register/deregister call -, after leaving), join (with in-range position, occasionally into ANOTHER model's "
         "environment), leave, re-join. After EVERY op, for EVERY model and type the listing (model.systems[T], "
@@ -22,11 +22,18 @@ RULE = ("2-3 models alive at once, each with its own environment kind (plain, Sp
 ASSUMPTIONS = ["an agent is resident in at most one environment at a time", "explicit (de)registration is only generated for "
                "components of resident agents", "the world-managed PositionComponent is not part of the claim"]
 
+import abc
+
+
+class CompM(Component, metaclass=abc.ABCMeta):
+    """a component family declared with a metaclass other than `type` (type(CompM) is ABCMeta)"""
+
+
 class CompP(PositionComponent):
     """a USER component type that merely derives from the world-managed PositionComponent (e.g. a velocity vector)"""
 
 
-TYPES = [CompA, CompB, CompF, CompP]     # CompF instances are falsy; CompP derives from PositionComponent
+TYPES = [CompA, CompB, CompF, CompP, CompM]     # CompF: falsy instances; CompP: derives from PositionComponent; CompM: ABCMeta
 KINDS = ["plain", "space", "discrete", "line", "grid"]
 LIVE = set()
 
@@ -274,7 +281,7 @@ def run_case(case):
 
 
 def strategy(tier):
-    m, a, t = st.integers(0, 2), wone_of(st.integers(0, 1), st.integers(0, 4)), wone_of(st.just(0), st.integers(0, 3))
+    m, a, t = st.integers(0, 2), wone_of(st.integers(0, 1), st.integers(0, 4)), wone_of(st.just(0), st.integers(0, 4))
     paired = st.sampled_from([True, True, False])
     k = st.integers(0, 14)
     pos = st.tuples(st.integers(0, 9), st.integers(0, 9), st.integers(0, 9)).map(list)
@@ -290,7 +297,7 @@ def strategy(tier):
         st.fixed_dictionaries({"op": st.just("leave"), "k": k}),
         st.fixed_dictionaries({"op": st.just("leave"), "k": k}),
     )
-    init = st.fixed_dictionaries({"comps": st.sampled_from([0, 0, 1, 1, 1, 2, 3, 4, 5, 7, 8, 9, 12, 15]), "joined": st.booleans(), "pos": pos})
+    init = st.fixed_dictionaries({"comps": st.sampled_from([0, 0, 1, 1, 1, 2, 3, 4, 5, 7, 8, 9, 12, 15, 16, 17, 24, 31]), "joined": st.booleans(), "pos": pos})
     return st.fixed_dictionaries({"models": st.lists(st.integers(0, 4), min_size=2, max_size=3),
                                   "init": wone_of(st.just([]), st.lists(init, min_size=15, max_size=15)),
                                   "ops": wone_of(st.lists(ops, min_size=1, max_size=12), sized_lists(ops, 8, 45), sized_lists(ops, 8, 45))})
